@@ -2,6 +2,7 @@
    the two keeper API functions for the allow-list, and BeginBlocker. *)
 From Coq Require Import ZArith NArith List Bool Arith.
 From FR Require Import Dec Types Bank Match.
+From FR.Generated Require Consts.
 Import ListNotations.
 Open Scope Z_scope.
 
@@ -136,8 +137,9 @@ Definition new_auction (id : N) (ty : atype) (u : N) (up : bool) (price : Z) (sd
      a_ends := [end_]; a_status := st; a_remaining := rem; a_min_price := minp; a_matched_price := 0;
      a_max_round := maxr; a_rate := rate |}.
 
-Definition MaxNumVestingSchedules : nat := 100.
-Definition MaxExtendedRound : N := 30.
+(* the two limits are read from the source on every run (harness/cmd/consts -> Generated/Consts.v) *)
+Definition MaxNumVestingSchedules : nat := Z.to_nat Consts.max_num_vesting_schedules.
+Definition MaxExtendedRound : N := Z.to_N Consts.max_extended_round.
 
 Definition create_fixed (s : state) (u : N) (up : bool) (price : Z) (sd : N) (samt : Z) (pd : N)
            (vs : list sched) (start end_ : Z) : res state :=
